@@ -1,4 +1,9 @@
-(* Proofs about the PWB v2 packet model (Codec/Pwb.v). *)
+(* Proofs about the PWB v2 packet model (Codec/Pwb.v).
+   Engineering note: [mask_chan_list num] is [map _ (filter (N.testbit num) (Nrange 79))]; if the kernel ever has
+   to compare a reduced and an unreduced copy of it, it unfolds [filter] into 79 nested [if]s whose two branches
+   share the rest of the list and the comparison costs 2^79 (Qed never returns).  Therefore the list is only
+   accessed through [In_mask_chan_list], [mask_bits_In], [mask_chan_list_*] and is kept behind [remember]
+   (never [set]/[fold]/[change]) in proofs that also use [lia]/[destruct ... in H]. *)
 From Coq Require Import Sorted FinFun.
 From AG Require Import Base.Prelude Base.Res Base.Bytes Base.Mask Codec.Adc Codec.Pwb.
 
